@@ -91,6 +91,7 @@ func cmdSingle(args []string) {
 	nomerge := fs.Bool("nomerge", false, "disable merging")
 	secs := fs.Float64("seconds", 600, "time budget")
 	strace := fs.Bool("smt", false, "trace SMT")
+	nmi := fs.String("nomergein", "", "comma separated function names")
 	fs.Parse(args)
 	vd := verifDir()
 	work := filepath.Join(vd, "work")
@@ -106,6 +107,12 @@ func cmdSingle(args []string) {
 	cfg.NoMerge = *nomerge
 	cfg.MaxSeconds = *secs
 	traceSMT = *strace
+	cfg.NoMergeIn = map[string]bool{}
+	for _, f := range strings.Split(*nmi, ",") {
+		if f != "" {
+			cfg.NoMergeIn[f] = true
+		}
+	}
 	res := RunUnit(ld, *h, cfg, filepath.Join(work, "tmp"), 0, nil)
 	res.Funcs = nil
 	b, _ := json.MarshalIndent(res, "", " ")
